@@ -2,6 +2,7 @@
 """Development helper: apply each candidate mutation patch to /repo, run the checks, revert.
 usage: trymut.py [--all-checks] [dir ...]   (default dirs: /tmp/mut/out/C*/mut* and /verif/seeded/*)"""
 import glob, json, os, subprocess, sys
+forced = [a.split("=")[1] for a in sys.argv[1:] if a.startswith("--check=")]
 args = [a for a in sys.argv[1:] if not a.startswith("--")]
 allchecks = "--all-checks" in sys.argv
 dirs = args or sorted(glob.glob("/tmp/mut/out/C*/mut*")) + sorted(glob.glob("/verif/seeded/*"))
@@ -20,11 +21,11 @@ for d in dirs:
         print(f"{d}: PATCH DOES NOT APPLY: {r.stderr.strip()[:200]}"); continue
     try:
         res = {}
-        for c in (armed if allchecks else [prop]):
+        for c in (armed if allchecks else (forced or [prop])):
             if c not in armed: res[c] = "n/a"; continue
             q = sh("/verif/vcheck", c, cwd="/verif")
             res[c] = {0: "pass", 1: "VIOL", 2: "ERR"}.get(q.returncode, str(q.returncode))
-            if c == prop and q.returncode == 1:
+            if (c == prop or c in forced) and q.returncode == 1:
                 first = [l for l in q.stdout.splitlines() if l.startswith("  ")][:1]
                 res[c] += " " + (first[0].strip()[:150] if first else "")
             if q.returncode == 2:
